@@ -1,6 +1,7 @@
 package proxy
 
 import (
+	"context"
 	"errors"
 	"fmt"
 	"log/slog"
@@ -321,7 +322,10 @@ func (f *fetcher) dedupFetch(req *http.Request, key cache.CacheKey, clientHd *he
 	originalClientHd := *clientHd // Copy the original client headers so the shared requests don't get a modified version
 
 	fetchedObj, err, shared := f.group.Do(key.Hex, func() (any, error) {
-		return f.getFromCacheOrFetch(req, key, clientHd)
+		// Other clients may be waiting for the result of this fetch: it must not be
+		// cancelled just because the client that happens to run it hangs up.
+		sharedReq := req.WithContext(context.WithoutCancel(req.Context()))
+		return f.getFromCacheOrFetch(sharedReq, key, clientHd)
 	})
 	if err != nil {
 		if errors.Is(err, ErrNotCacheable) {
